@@ -308,6 +308,8 @@ class Parser:
         if k == "str":
             return ("StrV", unquote(w))
         if k == "num":
+            if str(int(w)) != w:        # "%d000000" with 0 prints 0000000: kept as the spliced text it is (read back by lib/DecN.v)
+                return ("Raw", w)
             return ("IntV", int(w))
         if k == "op" and w == "-" and self.peek()[0] == "num":
             return ("IntV", -int(self.next()[1]))
@@ -505,7 +507,7 @@ def run(ck):
         "C17 selection: checks/promsel.py parses the implementation's SQL text into a Sql.v tree; the parse is validated per case by rendering it back with the model renderer (byte equality)",
         "C17 Select loop: labels.Hash() (xxhash of the label list, ReshuffleSeries' key since fix 3acbc45) is treated as injective on label lists; sort.Slice instability on ties is canonicalised away",
     ]
-    ok, out = ck.coq_make(["model/PromCase.vo", "model/ProfSel.vo"])
+    ok, out = ck.coq_make(["model/PromCase.vo", "model/ProfSel.vo", "model/PromDown.vo"])
     if not ok:
         ck.obligation("selection models build", False, out[-1500:])
         return
@@ -678,18 +680,31 @@ def run_shard(ck, cases, idx):
                     cid, cl, sx_hints(h), sx_matchers(c.get("ms")), sx_db(c["db"]), tree, sx_str(c["sql"]),
                     sx_list(["(%s %s %s)" % (sx_str(e["p"]), sx_str(e["v"]), sx_bool(e["search"])) for e in orc]),
                     sx_list(["(%s %s %s)" % (sx_str(e["p"]), sx_str(e["v"]), sx_bool(e["full"])) for e in orc if not e.get("anch")])))
+            # the down-sampled path (metrics_15s derived from the case's samples as the materialized view does): outside the
+            # property's quantifier, judged against the model's own tree and the list reading only (PromDown.down_verdict)
+            if "metrics_15s" in c["sql"] and c.get("db") and any(not m.get("e") for m in c.get("ms") or []):
+                try:
+                    tree = sx_select(parse_sql(c["sql"]))
+                except (ParseError, IndexError, RecursionError) as ex:
+                    parse_failures.append((c, str(ex)))
+                    continue
+                orc = c.get("oracle") or []
+                lines.append("(down %d %s %s %s %s %s %s %s %s)" % (
+                    cid, cl, sx_hints(h), sx_matchers(c.get("ms")), sx_db(c["db"]), tree, sx_str(c["sql"]),
+                    sx_list(["(%s %s %s)" % (sx_str(e["p"]), sx_str(e["v"]), sx_bool(e["search"])) for e in orc]),
+                    sx_list(["(%s %s %s)" % (sx_str(e["p"]), sx_str(e["v"]), sx_bool(e["full"])) for e in orc if not e.get("anch")])))
     data = os.path.join(ck.work, "promsel_cases_%d.sx" % idx)
     with open(data, "w") as f:
         f.write("\n".join(lines) + "\n")
     rc, out = ck.ocaml_eval("promsel", "ExtractPromSel.v", "promsel", 'let data_file = "%s"\n' % data, "promsel_driver.ml")
     if rc != 0 and "extraction failed" in out:
         # a shared model (LogqlPlan.v, Sql.v) was rebuilt by a concurrent run between two shards: rebuild ours and retry once
-        ck.coq_make(["model/PromCase.vo", "model/ProfSel.vo"])
+        ck.coq_make(["model/PromCase.vo", "model/ProfSel.vo", "model/PromDown.vo"])
         rc, out = ck.ocaml_eval("promsel", "ExtractPromSel.v", "promsel", 'let data_file = "%s"\n' % data, "promsel_driver.ml")
     if rc != 0:
         ck.obligation("selection cases evaluated by the extracted models", False, out[-2500:])
         return False
-    res = {"sql": {}, "prof": {}, "lbl": {}, "sel": {}, "sem": {}, "psem": {}}
+    res = {"sql": {}, "prof": {}, "lbl": {}, "sel": {}, "sem": {}, "psem": {}, "down": {}}
     for ln in out.splitlines():
         p = ln.split()
         if len(p) >= 3 and p[0] in res:
@@ -785,7 +800,7 @@ def run_shard(ck, cases, idx):
     # ---- 3. the implementation's SQL under the reference interpreter
     bad = {k: [] for k in (1, 2, 3, 4, 9)}
     explained = {5: 0, 7: 0, 8: 0, 10: 0, 11: 0, 12: 0}
-    for cid, v in list(res["sem"].items()) + list(res["psem"].items()):
+    for cid, v in list(res["sem"].items()) + list(res["psem"].items()) + list(res["down"].items()):
         code = int(v[0])
         if code in bad:
             bad[code].append(byid[cid])
@@ -802,7 +817,9 @@ def run_shard(ck, cases, idx):
     for c, ex in parse_failures:
         bad[1].append(c)
     ck.extra["promsel_sem_explained"] = {VERDICTS[k]: v + ck.extra.get("promsel_sem_explained", {}).get(VERDICTS[k], 0) for k, v in explained.items()}
-    nsem = len(res["sem"]) + len(res["psem"]) + len(parse_failures)
+    nsem = len(res["sem"]) + len(res["psem"]) + len(res["down"]) + len(parse_failures)
+    ck.extra["downsampled_statements_interpreted"] = ck.extra.get("downsampled_statements_interpreted", 0) + len(res["down"])
+    ck.extra["downsampled_statements_with_rows"] = ck.extra.get("downsampled_statements_with_rows", 0) + len([1 for v in res["down"].values() if int(v[1]) > 0])
     ck.obligation("the implementation's SQL parses and renders back to its text (%d statements)" % nsem, not bad[1],
                   "; ".join(str(x) for x in ([ex for _, ex in parse_failures[:2]] + [c["id"] for c in bad[1][:5]])))
     ck.obligation("the reference interpreter evaluates the implementation's SQL", not bad[2], "case ids: %s" % [c["id"] for c in bad[2][:10]])
